@@ -13,12 +13,13 @@ LERP = "mina_core::interpolation::Lerp"
 SELF = ("deref", ("param", 1))
 
 
-def st_fields(F):
+def st_fields(F, ST=ST, SK=SK):
     a = F.adt(ST)
     fs = a["variants"][0]["fields"]
-    frames = [f["name"] for f in fs if f["ty"].startswith("alloc::vec::Vec<") and "SplitKeyframe" in f["ty"]]
+    skn = SK.split("::")[-1]
+    frames = [f["name"] for f in fs if f["ty"].startswith("alloc::vec::Vec<") and skn in f["ty"]]
     imap = [f["name"] for f in fs if f["ty"] == "alloc::vec::Vec<usize>"]
-    ov = [f["name"] for f in fs if f["ty"].startswith("core::option::Option<") and "SplitKeyframe" in f["ty"]]
+    ov = [f["name"] for f in fs if f["ty"].startswith("core::option::Option<") and skn in f["ty"]]
     if len(frames) != 1 or len(imap) != 1 or len(ov) != 1:
         raise AnchorLost("SubTimeline fields (frames / index map / override)")
     k = F.adt(SK)
@@ -31,9 +32,9 @@ def st_fields(F):
 
 # ---------------------------------------------------------------------------------------------------
 # R1 - splitting
-def rule_split(ctx, F, rule="R1"):
-    fl = st_fields(F)
-    body = F.one(crate="mina_core", name="from_keyframes", impl_self_adt=ST)
+def rule_split(ctx, F, rule="R1", ST=ST, SK=SK, KF="mina_core::timeline::Keyframe", floors=True):
+    fl = st_fields(F, ST, SK)
+    body = F.one(name="from_keyframes", impl_self_adt=ST)
     eng = pse.Engine(F)
     paths = eng.run(body)
     ctx.count_paths(paths, body)
@@ -59,7 +60,7 @@ def rule_split(ctx, F, rule="R1"):
         for (t, v, s) in p.conds:
             if t[0] == "loop" and t[2][0] == "local" and t[2][2] == "bool":
                 has_data_locals.add(t[2][1])
-    kf_time = {f["ty"]: f["name"] for f in F.adt("mina_core::timeline::Keyframe")["variants"][0]["fields"]}
+    kf_time = {f["ty"]: f["name"] for f in F.adt(KF)["variants"][0]["fields"]}
     n_body = n_epi = 0
     for p in paths:
         pushes = calls(p, lambda e: e["fn"]["name"] == "push" and "Vec" in e["callee"])
@@ -213,8 +214,9 @@ def rule_split(ctx, F, rule="R1"):
                 ok = f.get(fl["ov"], ("x",))[0] == "agg" and f[fl["ov"]][3] == "None"
                 ctx.ob(rule, lab + "/fresh-override", ok, "a new sub-timeline has no start override", body["span"],
                        what="override-preset")
-    ctx.floor(rule, "loop-body rows of from_keyframes", n_body, 9)
-    ctx.floor(rule, "epilogue rows of from_keyframes", n_epi, 4)
+    if floors:
+        ctx.floor(rule, "loop-body rows of from_keyframes", n_body, 9)
+        ctx.floor(rule, "epilogue rows of from_keyframes", n_epi, 4)
 
 
 def _is_empty_vec(t):
@@ -223,17 +225,17 @@ def _is_empty_vec(t):
 
 # ---------------------------------------------------------------------------------------------------
 # R2 / R3 - lookup and eased lerp
-def value_at_rows(ctx, F):
-    body = F.one(crate="mina_core", name="value_at", impl_self_adt=ST)
+def value_at_rows(ctx, F, ST=ST):
+    body = F.one(name="value_at", impl_self_adt=ST)
     eng = pse.Engine(F, inline=lambda fn, b: b["name"] not in ("calc", "lerp"))
     paths = eng.run(body)
     ctx.count_paths(paths, body)
     return body, paths
 
 
-def rule_lookup(ctx, F, rule2="R2", rule3="R3"):
-    fl = st_fields(F)
-    body, paths = value_at_rows(ctx, F)
+def rule_lookup(ctx, F, rule2="R2", rule3="R3", ST=ST, SK=SK, floors=True):
+    fl = st_fields(F, ST, SK)
+    body, paths = value_at_rows(ctx, F, ST)
     frames = ("field", SELF, fl["frames"])
     T = None
     n_lerp = n_zero = 0
@@ -390,8 +392,9 @@ def rule_lookup(ctx, F, rule2="R2", rule3="R3"):
         ctx.ob(rule2, lab + "/bounding-pair", okp,
                "bounding frames must be %s with frame 0 replaced by the override only when enabled and present; got "
                "start=%s end=%s" % (want, show(START), show(END)), body["span"], trace_of(p), what="bounding-pair-wrong")
-    ctx.floor(rule3, "eased-lerp rows of value_at", n_lerp, 8)
-    ctx.floor(rule3, "zero-length rows of value_at", n_zero, 8)
+    if floors:
+        ctx.floor(rule3, "eased-lerp rows of value_at", n_lerp, 8)
+        ctx.floor(rule3, "zero-length rows of value_at", n_zero, 8)
 
 
 def rule_zero_length(ctx, F, rule="R1"):
@@ -493,3 +496,17 @@ def check(ctx):
                      "about sorted positions); the value of any interpolation")
     ctx.assumptions += ["slice::binary_search_by on a sorted table returns Ok(i) for a hit and Err(insertion point) otherwise",
                         "boundary table sorted (C11)"]
+
+
+CTL_ST = "witness_controls::split::CtlSub"
+CTL_SK = "witness_controls::split::CtlSplit"
+CTL_KF = "witness_controls::split::CtlKeyframe"
+
+
+def controls(ctx, F):
+    rule_split(ctx, F, "R1", ST=CTL_ST, SK=CTL_SK, KF=CTL_KF, floors=False)
+    rule_lookup(ctx, F, "R2", "R3", ST=CTL_ST, SK=CTL_SK, floors=False)
+    return [("R1", "easing-leaks", "splitter copy whose carried easing is updated by keyframes that omit the property"),
+            ("R1", "index-map-not-parallel", "splitter copy that adds an index-map entry only for keyframes with data"),
+            ("R2", "bounding-pair-wrong", "lookup copy that returns (frame idx, frame idx) instead of (idx-1, idx)"),
+            ("R3", "easing-from-wrong-frame", "eased lerp copy that takes the easing of the end frame")]
